@@ -111,6 +111,11 @@ def main():
         return 2
     for l in out.splitlines():
         m = re.match(r"^(VIOLATED|UNDECIDED) (C\d\d)/", l) or re.match(r"^(BROKEN-CHECK) property=(C\d\d)", l)
+        if m and "analyser panic" in l:
+            # a crash of the analyser is a defect of the checker, not a detection
+            print("seedkeep: WARNING analyser panic on this tree:", l[:200])
+            reports.append("ANALYSER-PANIC " + l[:250].replace(t + "/", ""))
+            continue
         if m:
             if m.group(2) not in caught:
                 caught.append(m.group(2))
